@@ -73,7 +73,7 @@ pub fn build(programs: &[(Program, bool)], tag: &str) -> CorpusBuild {
             main.push_str(&format!("            {k} => p{k}::validate(root, &bytes),\n"));
         }
     }
-    main.push_str("            _ => \"err no such program\".to_string(),\n        };\n        println!(\"{out}\");\n    }\n}\n");
+    main.push_str("            _ => \"err no such program\".to_string(),\n        };\n        println!(\"{}\", out.replace('\\n', \" | \"));\n    }\n}\n");
     let _ = std::fs::write(dir.join("src/main.rs"), main);
     for (k, (p, codec)) in programs.iter().enumerate() {
         let derives = if *codec { "TypeInfo, Encode, Decode" } else { "TypeInfo" };
